@@ -166,17 +166,21 @@ Definition list_log_gz off sp fixed f flt := existing_rot off sp fixed f flt sel
 (* numbers *)
 Definition number_infix (i : N) : bytes := r_char :: pad_left 5 48 (dec i).
 
-Definition has_name_part (sp : file_spec) : bool :=
-  match fbase sp with [] => false | _ => true end
-  || match fdisc sp with Some (_ :: _) => true | _ => false end || fts sp.
-
-Definition index_of_listed (sp : file_spec) (name : bytes) : option N :=
-  let infix := if has_name_part sp then Some (after_last [uscore; r_char] name) else str_from name 1 in
-  match infix with
+(* get_highest_index: the infix follows the fixed name part (and an underscore, if that is not empty) and starts with r;
+   a listed name of another shape is ignored (None) *)
+Definition index_of_listed (fixed : bytes) (name : bytes) : option N :=
+  let prefix := match fixed with [] => [r_char] | _ => fixed ++ [uscore; r_char] end in
+  match strip_prefix prefix name with
   | None => None
   | Some i => (* the number ends at the first dot: the stem of a compressed file still carries the suffix *)
               let digits := match find_byte dot i with Some e => firstn e i | None => i end in
               Some (match parse_uint u32_max digits with Some v => v | None => 0 end)
+  end.
+
+Fixpoint filter_map_opt {A B} (g : A -> option B) (l : list A) : list B :=
+  match l with
+  | [] => []
+  | x :: r => match g x with Some y => y :: filter_map_opt g r | None => filter_map_opt g r end
   end.
 
 Fixpoint max_opt (l : list N) : option N :=
@@ -195,10 +199,7 @@ Fixpoint map_opt {A B} (g : A -> option B) (l : list A) : option (list B) :=
 Definition get_highest_index (off : Z) (sp : file_spec) (fixed : bytes) (f : fs) : option (option N) :=
   match list_log_gz off sp fixed f IFNum with
   | None => None
-  | Some files => match map_opt (index_of_listed sp) files with
-                  | None => None
-                  | Some idxs => Some (max_opt idxs)
-                  end
+  | Some files => Some (max_opt (filter_map_opt (index_of_listed fixed) files))
   end.
 
 (* collision_free_infix_for_rotated_file *)
@@ -215,11 +216,6 @@ Definition restart_number (n : bytes) : option N :=
   | None => None
   | Some ix => parse_uint usize_max (take_digits (skipn (ix + 9) n))
   end.
-Fixpoint filter_map_opt {A B} (g : A -> option B) (l : list A) : list B :=
-  match l with
-  | [] => []
-  | x :: r => match g x with Some y => y :: filter_map_opt g r | None => filter_map_opt g r end
-  end.
 
 (* outer None: panic; inner None: the error "restart numbers are exhausted" *)
 Definition collision_free_infix (off : Z) (sp : file_spec) (fixed : bytes) (f : fs) (infix : bytes) : option (option bytes) :=
@@ -231,7 +227,7 @@ Definition collision_free_infix (off : Z) (sp : file_spec) (fixed : bytes) (f : 
                                     | Some s => ext_is (strip_gz n) s
                                     | None => true end) (unc ++ cmp)) in
     let new_name := as_name sp fixed (Some infix) in
-    let new_gz := set_extension new_name (match fsfx sp with Some s => s | None => [] end ++ dot :: gz_sfx) in
+    let new_gz := new_name ++ dot :: gz_sfx in
     let exists_ n := match lookup f n with Some _ => true | None => false end in
     if exists_ new_name || exists_ new_gz || match sibs with [] => false | _ => true end then
       match max_opt (filter_map_opt restart_number sibs) with
